@@ -72,6 +72,7 @@ struct Config {
     i64 pause_max_ns = 5 * 1000 * 1000;
     unsigned hot_buckets = 0; // bit mask over 16 hash buckets of site names: sites in these buckets are "hot" in this run
     std::vector<std::string> hot_sites; // sites named by the scenario as hot in this run
+    std::string hot_thread_prefix; // if set: only threads whose name starts with this are paused at the named hot sites (application threads)
     double hot_pause_p = 0.0; // probability of a pause at a hot site
     u64 max_pauses = 64;      // per run
     double start_delay_p = 0.0; // per created thread: probability that it starts late
